@@ -412,15 +412,15 @@ func c19CoreFun(name string) c19Fun {
 // registration and case layout
 
 type c19Layout struct {
-	nReg, nUser, nShadow, nRedef, nPos, nMove int
+	nReg, nUser, nShadow, nRedef, nPos, nMove, nPlace int
 }
 
 func c19GetLayout() c19Layout {
-	return c19Layout{nReg: len(c19Registry()), nUser: len(c19UserSigs()), nShadow: len(c19ShadowCases()), nRedef: len(c19RedefCases()), nPos: c19PositionCaseCount(), nMove: len(c19MoveCases())}
+	return c19Layout{nReg: len(c19Registry()), nUser: len(c19UserSigs()), nShadow: len(c19ShadowCases()), nRedef: len(c19RedefCases()), nPos: c19PositionCaseCount(), nMove: len(c19MoveCases()), nPlace: len(c19PlaceCases())}
 }
 
 func (l c19Layout) enumerated() int {
-	return l.nReg + l.nUser + l.nShadow + l.nRedef + l.nPos + l.nMove
+	return l.nReg + l.nUser + l.nShadow + l.nRedef + l.nPos + l.nMove + l.nPlace
 }
 
 func c19RandomCases(tier string) int {
@@ -439,8 +439,9 @@ func init() {
 			fmt.Sprintf("(4) one name defined more than once: %d placements of the call (after / between the definitions, in a function defined before / between / after them and invoked between / after them, the definitions in one package or in two) x %d definer pairs (defun/defmacro) x every ordered pair of %d different formals lists x k = 0..%d, the definition in force at the call decided by evaluating (a control run records what the name is bound to at the call's position; each definition body has its own probe). ", len(c19RedefPlaces), len(c19RedefDefiners), len(c19RedefFormals), c19RedefMaxK) +
 			fmt.Sprintf("(5) syntactic positions: %d places a call can be written in (body / initialisers / local function bodies of let, let*, flet, labels, macrolet in the paren and the bracket spelling of the binding entries, bracket-spelled formals, cond clauses, dotimes count/result/body, handler-bind handler expressions and bodies, lambda/defun/defmacro bodies, threading-macro operands, assignment values, unquoted parts and expansions of templates) x %d callees (core functions of arity 0/1/2, special operators, a macro, a defun) x k = 0..named+1, a control run deciding how often the place is evaluated; %d data positions (observed only) and %d call-shaped places that are not calls (binding entries, formals lists, threading steps: judged where docs/lint-checks.md documents the exclusion). ", len(c19Positions()), len(c19PosCalleeNames)+1, len(c19DataPositions), len(c19NonCalls)) +
 			fmt.Sprintf("(6) package movement between a global shadowing definition and the call: %d global rebinding kinds (defun, defmacro, set) x the %d builtin names x %d shadow values x %d movements (the defining package declared again, an excursion to another package and back, (in-package 'user) while in user, a nested load-string that enters and leaves packages, export of the name, use-package of a package exporting the same name / other names, the name used from another package, the call in a function of the defining package invoked after the movement or from another package) x k = 0..%d, judged like (3); a finding the plain definition-then-call program shows too keeps the plain shape's key. ", len(c19GlobalKinds), len(c19Targets), len(c19MoveShadowsFor(c19GlobalKinds[len(c19GlobalKinds)-1])), len(c19Moves), c19ShadowMaxK) +
+			fmt.Sprintf("(7) where the global shadowing definition sits: %d global rebinding kinds x %d builtin names x the shadow values of (6) x %d placements = %d sites (the definition at top level, in the same top-level form as the call, in an installer function called before the call / from another function / through funcall / through map / applied anonymously, and - written in the file but not evaluated before the call - in an installer nobody calls, one called after the call, a branch not taken; as text handed to load-string: observed only) x %d forms around the definition (progn, a let keeping the original in a closure, let*, bracket-spelled let, if, cond, and, flet, handler-bind body and handler, ignore-errors, dotimes, three forms deep) x k = 0..%d, judged like (3); a site only declares whether the definition runs before the call, which the observed reach must confirm; a finding the plain program (bare definition right before / right after the call) shows too keeps the plain shape's key. ", len(c19GlobalKinds), len(c19PlaceTargets), len(c19Placements()), len(c19Sites), len(c19DefWraps), c19ShadowMaxK) +
 			"Each source is linted in the three configurations `elps lint` has (no workspace; --workspace with the file inside; --workspace reading stdin) and evaluated in a fresh runtime. " +
-			"SAMPLED part: the same six families under random neutral wrappers (incl. bracket-spelled ones), the bracket spelling of the shadowing shapes' binding entries, argument expressions, names, line/column placement (and a third definition). " +
+			"SAMPLED part: the same seven families under random neutral wrappers (incl. bracket-spelled ones), the bracket spelling of the shadowing shapes' binding entries, argument expressions, names, line/column placement (and a third definition; for (7) every site x stacks of up to three forms around the definition x all names and shadow values). " +
 			"A cover key is (family, kind|signature class|shape, lint mode outcome, run-time outcome class, relation of k to the accepted range).",
 		Assumptions: []string{
 			"run-time binding failure of a call = the evaluation returns an error whose own source location is the call, whose message is one of the messages produced by (*LEnv).bind/bindFormalNext, and whose call-stack top is the callee (function id compared with the registry's); errors raised later by a builtin body or by a macro's expansion do not count",
@@ -484,10 +485,14 @@ func c19Run(w *fw.W, idx int) {
 		c19RunRedefCase(w, c19RedefCases()[idx-l.nReg-l.nUser-l.nShadow])
 	case idx < l.nReg+l.nUser+l.nShadow+l.nRedef+l.nPos:
 		c19RunPositionCase(w, idx-l.nReg-l.nUser-l.nShadow-l.nRedef)
-	case idx < l.enumerated():
+	case idx < l.enumerated()-l.nPlace:
 		c19RunMoveCase(w, c19MoveCases()[idx-l.nReg-l.nUser-l.nShadow-l.nRedef-l.nPos])
+	case idx < l.enumerated():
+		c19RunPlaceCase(w, c19PlaceCases()[idx-(l.enumerated()-l.nPlace)])
 	default:
-		c19RunRandom(w, idx)
+		// the sampled cases keep the PRNG streams they had before family 8 was
+		// appended to the enumerated part
+		c19RunRandom(w, idx-l.nPlace)
 	}
 	if w.Verbose || idx+w.NShards >= l.enumerated()+c19RandomCases(w.Tier) {
 		c19Cleanup() // last case of this worker
@@ -534,6 +539,29 @@ func c19Driver(d *fw.D) {
 	check("redefined_cases_enumerated", len(c19RedefCases()))
 	check("position_cases_enumerated", c19PositionCaseCount())
 	check("pkgmove_cases_enumerated", len(c19MoveCases()))
+	check("placement_cases_enumerated", len(c19PlaceCases()))
+	if got := len(d.Sets["definition_placements"]); got != len(c19Placements()) {
+		d.Inconclusive(fmt.Sprintf("%d of %d placements of the shadowing definition were run", got, len(c19Placements())))
+	}
+	if got := len(d.Sets["definition_placement_kinds"]); got != len(c19GlobalKinds) {
+		d.Inconclusive(fmt.Sprintf("%d of %d global rebinding kinds were placed", got, len(c19GlobalKinds)))
+	}
+	// every placement must have been classified by the evaluator for every kind
+	// (a placement whose program the judge could not classify says nothing)
+	for _, kd := range c19GlobalKinds {
+		seen := map[string]bool{}
+		for m := range d.Sets["definition_placement_reach:"+kd.Name] {
+			seen[strings.SplitN(m, " -> ", 2)[0]] = true
+		}
+		for _, pl := range c19Placements() {
+			if !seen[pl.name()] {
+				d.Inconclusive(fmt.Sprintf("placement %s of a %s was never classified by an evaluation", pl.name(), kd.Name))
+			}
+		}
+	}
+	if d.Counters["sampled_placement_cases"] == 0 {
+		d.Inconclusive("the sampled part drew no placement of a shadowing definition")
+	}
 	if got := len(d.Sets["package_movements"]); got != len(c19Moves) {
 		d.Inconclusive(fmt.Sprintf("%d of %d package movements were run", got, len(c19Moves)))
 	}
